@@ -8,7 +8,7 @@ import tempfile
 from pathlib import Path
 
 from .. import coq
-from ..core import Ctx
+from ..core import REPO, Ctx
 from ..harness import lint as L
 
 S = coq.coq_str
@@ -68,6 +68,131 @@ def make_module(path: Path, prefix: str, code: int, sig: str, node_type: str = "
                                      check_def=SIGS[sig][0].replace("{T}", node_type)))
 
 
+
+def translate_nodes(repo: Path) -> tuple[str, list[str]]:
+    """The classes a check may be annotated with: loader.VALID_NODE_TYPES must still be the set of
+    METHOD_NODE_MAPPINGS' values, and extract_function_types / run_check must keep their recognised tests."""
+    import ast
+    from ..translate.catalogue import TranslateError
+    from ..translate.schedule import mapping
+    src = (repo / "refurb" / "loader.py").read_text("utf8")
+    need = ["VALID_NODE_TYPES = set(METHOD_NODE_MAPPINGS.values())", 'VALID_OPTIONAL_ARGS = (("settings", Settings),)', "if ty not in VALID_NODE_TYPES:",
+            "case ty if ty in VALID_NODE_TYPES:", "if len(params) not in {2, 3}:", "(param.name, param.annotation) not in VALID_OPTIONAL_ARGS",
+            "isinstance(error_param, GenericAlias)", "error_param.__origin__ is list", "error_param.__args__[0] is Error"]
+    for n in need:
+        if n not in src:
+            raise TranslateError(f"refurb/loader.py no longer contains `{n}`")
+    vis = (repo / "refurb" / "visitor" / "visitor.py").read_text("utf8")
+    if "if check.__code__.co_argcount == 3:" not in vis or "check(node, self.errors, self.settings)" not in vis or "check(node, self.errors)" not in vis:
+        raise TranslateError("RefurbVisitor.run_check no longer dispatches on co_argcount == 3")
+    nodes = sorted(set(mapping(repo / "refurb" / "visitor" / "mapping.py").values()))
+    return ("From Lib Require Import Base.\nOpen Scope list_scope.\n"
+            f"Definition valid_nodes : list string := {coq.coq_list([S(x) for x in nodes])}.\n"), nodes
+
+
+def signature_tie(ctx: Ctx, nodes: list[str], built: bool) -> None:
+    """Synthesised functions through the real extract_function_types vs Lib/Signature.v validate."""
+    import mypy.nodes as N
+    from refurb.error import Error
+    from refurb.loader import extract_function_types
+    from refurb.settings import Settings
+    rng = ctx.rng
+    pool_node = [("ACls", n, getattr(N, n, None)) for n in ("IntExpr", "NameExpr", "CallExpr", "ForStmt", "MypyFile", "RefExpr", "Expression", "Node", "Statement", "SymbolNode", "FuncItem")]
+    pool_node = [(k, n, o) for k, n, o in pool_node if o is not None]
+    others = [("AOther", "str-annotation", "IntExpr"), ("AOther", "None", None), ("AOther", "int", int), ("AOther", "list-of-str", list[str]), ("ASettings", "", Settings),
+              ("AListError", "", list[Error]), ("AOther", "list-bare", list), ("AOther", "empty", None)]
+
+    concrete = [x for x in pool_node if x[1] in nodes]
+
+    def pick_node():
+        r = rng.random()
+        if r < 0.5:
+            return rng.choice(concrete)
+        if r < 0.62:
+            return rng.choice(pool_node)
+        if r < 0.85:
+            items = [rng.choice(concrete * 3 + pool_node + [("AOther", "int", int)]) for _ in range(rng.choice([2, 2, 3]))]
+            objs = []
+            for it in items:
+                if it[2] not in objs:
+                    objs.append(it[2])
+            if len(objs) < 2:
+                return items[0]
+            u = objs[0]
+            for o in objs[1:]:
+                u = u | o
+            terms = [it for i, it in enumerate(items) if it[2] not in [x[2] for x in items[:i]]]
+            return ("AUnion", terms, u)
+        return rng.choice(others)
+
+    def coq_ann(a) -> str:
+        k, d, _ = a
+        if k == "ACls":
+            return f"(ACls {S(d)})"
+        if k == "AUnion":
+            return "(AUnion [" + "; ".join(coq_ann(x) if x[0] == "ACls" else f"(AOther {S(str(x[1]))})" for x in d) + "])"
+        if k in ("AListError", "ASettings"):
+            return k
+        return f"(AOther {S(str(d))})"
+    rows, descr = [], []
+    for t in range(ctx.budget(600, 6000)):
+        n = rng.choice([0, 1, 2, 2, 2, 2, 3, 3, 3, 3, 4])
+        anns = []
+        for i in range(n):
+            if i == 0:
+                anns.append(pick_node())
+            elif i == 1:
+                anns.append(("AListError", "", list[Error]) if rng.random() < 0.9 else rng.choice(others))
+            else:
+                anns.append(("ASettings", "", Settings) if rng.random() < 0.8 else rng.choice(others + pool_node[:2]))
+        names = ["node", "errors"] + [rng.choice(["settings", "settings", "settings", "config"]) + ("" if i == 0 else str(i)) for i in range(max(0, n - 2))]
+        names = names[:n]
+        ns: dict = {}
+        import linecache
+        fsrc = "def check(" + ", ".join(names) + "):\n    pass\n"
+        fname = f"<c16-synth-{t}>"
+        linecache.cache[fname] = (len(fsrc), None, fsrc.splitlines(True), fname)      # so that the loader can quote file:line
+        exec(compile(fsrc, fname, "exec"), ns)
+        fn = ns["check"]
+        fn.__annotations__ = {nm: a[2] for nm, a in zip(names, anns) if not (a[0] == "AOther" and a[1] == "empty")}
+        callable_ = rng.random() > 0.03
+        target = fn if callable_ else 5
+        try:
+            got = sorted(t.__name__ for t in extract_function_types(target))
+            real = "(Accept " + coq.coq_list([S(x) for x in got]) + ")"
+            real_kind = "accept"
+        except TypeError:
+            real, real_kind = None, "reject"
+        except Exception as e:  # noqa: BLE001
+            ctx.report(f"signature:crash:{type(e).__name__}", f"extract_function_types raised {type(e).__name__}: {e} on a function annotated {[(nm, str(a[1])) for nm, a in zip(names, anns)]}",
+                       {"annotations": [(nm, str(a[1])) for nm, a in zip(names, anns)]})
+            continue
+        ctx.case(("sig", t), nontrivial=True)
+        ctx.count(f"synthesised-signature-{real_kind}")
+        ps = "; ".join(f"({S(nm)}, {coq_ann(a)})" for nm, a in zip(names, anns))
+        sigt = f"{{| is_callable := {coq.coq_bool(callable_)}; params := [{ps}] |}}"
+        if real is None:
+            rows.append(f"match validate valid_nodes {sigt} with Reject _ => true | Accept _ => false end")
+        else:
+            rows.append(f"match validate valid_nodes {sigt} with Accept cs => list_eqb String.eqb (isort str_leb cs) (isort str_leb {got and coq.coq_list([S(x) for x in got]) or '[]'}) | Reject _ => false end")
+        descr.append(f"{'callable' if callable_ else 'not callable'} {[(nm, a[0], str(a[1])[:40]) for nm, a in zip(names, anns)]} -> {real_kind}")
+    if not built:
+        return
+    hdr = ("From Lib Require Import Base Signature.\nFrom P Require Import GenNodes.\nOpen Scope list_scope.\nOpen Scope string_scope.\nSet Printing Width 100000.\n"
+           "Definition bad (l : list bool) := (fix go (i : nat) (l : list bool) : list nat := match l with [] => [] | b :: q => if b then go (S i) q else i :: go (S i) q end) 0%nat l.\n")
+    shards = ["Eval vm_compute in bad [\n" + ";\n".join(rows[k:k + 600]) + "].\n" for k in range(0, len(rows), 600)]
+    outs = coq.eval_shards(ctx, "sigs", hdr, shards)
+    bad, err = [], ""
+    for k, (rc, o, e) in enumerate(outs):
+        vals = coq.parse_eval_values(o)
+        if rc != 0 or not vals:
+            err = (e or o)[-300:]
+            continue
+        bad += [k * 600 + int(j) for j in re.findall(r"\d+", vals[0].split(":")[0])]
+    ctx.obligation("correspondence: Lib/Signature.v validate = refurb.loader.extract_function_types on synthesised check functions (accepted classes / rejection)",
+                   not bad and not err, err or "; ".join(descr[i] for i in bad[:4]))
+
+
 def run(ctx: Ctx) -> None:
     ctx.trusted_base += [
         "Coq 8.16.1 kernel",
@@ -78,8 +203,15 @@ def run(ctx: Ctx) -> None:
     ctx.rule("generated plugin packages: every list of load targets over {package, its sub-module, second module, built-in package, duplicates} up to length 3, "
              "every signature class (5 valid incl. union / optional settings / no return annotation, 9 invalid), selections by code/category/enable-all/disable-all/ignore; "
              "oracle = call log + CLI output; distinct by (targets, selection) / signature")
-    b = coq.compile_props(ctx, {}, ["C16"])
+    gens, order, nodes = {}, ["C16"], []
+    try:
+        gens["GenNodes"], nodes = translate_nodes(REPO)
+        order = ["C16", "GenNodes", "C16Sig"]
+    except Exception as e:  # noqa: BLE001
+        ctx.obligation("translate the check-function contract (loader.py, visitor.py, mapping.py)", False, f"{type(e).__name__}: {e}")
+    b = coq.compile_props(ctx, gens, order)
     coq.record_build(ctx, b)
+    signature_tie(ctx, nodes, bool(gens) and b.files.get("C16Sig", {}).get("rc") == 0)
     td = Path(tempfile.mkdtemp(prefix="c16-"))
     try:
         # plugin tree
@@ -190,7 +322,8 @@ def run(ctx: Ctx) -> None:
                        {"argv": argv, "pythonpath": env2["PYTHONPATH"], "stdout": out[-400:], "stderr": err[-400:]})
     finally:
         shutil.rmtree(td, ignore_errors=True)
-    ctx.resolve_broken({"modules_once": "load:multiplicity"}, b.first_error)
+    ctx.resolve_broken({"modules_once": "load:multiplicity", "translate the check-function contract (loader.py, visitor.py, mapping.py)": "signature:",
+                        "accepted_checks_are_callable_as_registered": "signature:", "well_formed_checks_are_accepted": "signature:"}, b.first_error)
 
 
 def selections(ctx: Ctx, td: Path, env, log: Path) -> None:
